@@ -181,7 +181,18 @@ class World:
                 after = post_of(t)
                 d = atomic_diff(before, after)
                 if d:
-                    rec.fail(prop="C18", monitor="C18.world.atomicity", op=op,
+                    mech = None
+                    # known finding D01: a gapped 1D histogram with integer contents cannot store the "unknown" (NaN) under/overflow
+                    # markers; fill / fill_n raise on that assignment after the contents were added
+                    try:
+                        if (before.get("class") and "underflow" in before and np.dtype(before["dtype"]).kind in "iu" and isinstance(exc, ValueError) and "NaN" in str(exc)
+                                and op.rsplit(".", 1)[-1] in ("fill", "fill_n")):
+                            b = snap.arr_values(before["bins"][0])
+                            if len(b) > 1 and not np.array_equal(b[1:, 0], b[:-1, 1]):
+                                mech = "1d.gap.int_dtype.nan_missed"
+                    except Exception:
+                        mech = None
+                    rec.fail(prop="C18", monitor="C18.world.atomicity", op=op, mechanism=mech,
                              symptom=f"operation raised {type(exc).__name__} but the histogram was changed",
                              diff=sorted(d), detail={**detail, "error": str(exc)[:160], "before": _brief(before), "after": _brief(after)})
 
